@@ -1,6 +1,7 @@
 import VrpModel.C13
 import Mathlib.Data.Nat.Sqrt
 import Mathlib.Tactic.Linarith
+import Mathlib.Tactic.Ring
 /-!
 # C13 — basic lemmas: nearest-integer square root, `CoordIndex::collect`, `allSome`
 -/
@@ -23,6 +24,7 @@ theorem roundSqrt_isNearest (n : Nat) : IsNearestSqrt n (roundSqrt n) := by
   simp only [Nat.succ_eq_add_one] at h2
   by_cases h : n - s * s ≤ s
   · simp only [h, if_true]
+    have h' : n ≤ s * s + s := by omega
     constructor
     · nlinarith
     · by_cases hs : s = 0
